@@ -87,11 +87,23 @@ def ret_err_sites(fn, R):
         # `opt.ok_or(E)?` / `res.map_err(..)?`-free form: the residual handed to from_residual carries E
         t = b["term"]
         if t["k"] == "call" and t["dest"]["local"] == 0 and not t["dest"]["proj"] and (t["callee"].get("def") or "").endswith("FromResidual::from_residual") and t["args"]:
-            c = find_call(strip_bb(R.op(t["args"][0])), ("Option::<T>::ok_or",))
+            ae = strip_bb(R.op(t["args"][0]))
+            c = find_call(ae, ("Option::<T>::ok_or",))
             if c is not None and len(c[3]) >= 2:
                 v = err_value_variant(strip_bb(c[3][1]))
                 if v is not None:
                     out.append((bi, v, t))
+            else:
+                g = find_agg(ae, "result::Result", "Err")
+                if g is not None and g[3]:
+                    v = err_value_variant(strip_bb(g[3][0]))
+                    if v is not None:
+                        out.append((bi, v, t))
+                elif t["args"][0].get("k") in ("move", "copy"):
+                    # the residual may reach here from several definitions: follow the moves back to the Err(..) values
+                    vs = residual_errors(fn, R, t["args"][0]["place"]["local"])
+                    if vs is not None and len(vs) == 1:
+                        out.append((bi, next(iter(vs)), t))
     return out
 
 
@@ -109,6 +121,19 @@ def find_call(e, suffixes, depth=0):
     return None
 
 
+def find_agg(e, adt_suffix, variant, depth=0):
+    if not isinstance(e, tuple) or depth > 12:
+        return None
+    if e and e[0] == "agg" and isinstance(e[1], str) and e[1].endswith(adt_suffix) and e[2] == variant:
+        return e
+    for x in e:
+        if isinstance(x, tuple):
+            r = find_agg(x, adt_suffix, variant, depth + 1)
+            if r is not None:
+                return r
+    return None
+
+
 def err_value_variant(e):
     """variant description of an error *value* that `?` converts into snow's Error (From impls of error.rs)"""
     if e[0] == "agg" and e[1]:
@@ -118,6 +143,8 @@ def err_value_variant(e):
             return (wrap, e[2])
         if e[1].endswith("error::Error"):
             return err_variant(e)
+    if e[0] == "call" and e[1] and e[1].endswith(("convert::Into::into", "convert::From::from")) and e[3]:
+        return err_value_variant(e[3][0])
     return None
 
 
@@ -179,3 +206,45 @@ def mentions_call_at(e, bb, fn=None, R=None, depth=0):
         if len(ds) == 1 and ds[0][1] == "term" and ds[0][0] == bb:
             return True
     return any(mentions_call_at(x, bb, fn, R, depth + 1) for x in e if isinstance(x, (tuple, frozenset)))
+
+
+
+def residual_errors(fn, R, local, depth=0, seen=None):
+    """variants of the Err(..) values that can flow (through moves, Try::branch and Break payload reads) into `local`;
+    None when some source is not understood"""
+    seen = seen if seen is not None else set()
+    if local in seen or depth > 10:
+        return set()
+    seen.add(local)
+    out = set()
+    defs = fn.defs().get(local, [])
+    if not defs:
+        return None
+    for (bi, si, st) in defs:
+        if si == "term":
+            d = st["callee"].get("def") or ""
+            if d.endswith("ops::Try::branch") and st["args"] and st["args"][0].get("k") in ("move", "copy") and not st["args"][0]["place"]["proj"]:
+                r = residual_errors(fn, R, st["args"][0]["place"]["local"], depth + 1, seen)
+                if r is None:
+                    return None
+                out |= r
+                continue
+            return None
+        if st.get("k") != "assign" or st["place"]["proj"]:
+            return None
+        rv = st["rv"]
+        if rv["k"] == "aggregate" and (rv.get("adt") or "").endswith("result::Result"):
+            if rv.get("variant_name") == "Err":
+                v = err_value_variant(strip_bb(R.op(rv["ops"][0])))
+                if v is None:
+                    return None
+                out.add(v)
+            continue
+        if rv["k"] == "use" and rv["op"].get("k") in ("move", "copy"):
+            r = residual_errors(fn, R, rv["op"]["place"]["local"], depth + 1, seen)
+            if r is None:
+                return None
+            out |= r
+            continue
+        return None
+    return out
